@@ -401,3 +401,53 @@ theorem inEll_sound (c : Vec) (Sg : Mat) (a : Rat) (x : Vec) (h : inEll c Sg a x
       · exact absurd h (by simp)
 
 end VOPy.Accuracy
+
+namespace VOPy.Accuracy
+open VOPy
+
+/-! ### boxes of positive size are non-degenerate -/
+
+theorem dot_set (w : Vec) : ∀ (l : Vec) (d : Nat) (x : Rat) (hd : d < l.length) (hw : d < w.length),
+    dot w (l.set d x) = dot w l + w[d] * (x - l[d]) := by
+  induction w with
+  | nil => intro l d x _ hw; simp at hw
+  | cons y ws ih =>
+    intro l d x hd hw
+    cases l with
+    | nil => simp at hd
+    | cons a t =>
+      cases d with
+      | zero => simp only [List.set_cons_zero, dot, List.getElem_cons_zero]; ring
+      | succ d =>
+        simp only [List.set_cons_succ, dot, List.getElem_cons_succ]
+        rw [ih t d x (by simpa using hd) (by simpa using hw)]
+        ring
+
+/-- A box `[l, u]` (`l ≤ u`) with positive width in a coordinate `d` on which some facet `w` of the
+cone has a non-zero entry contains two points on which that facet functional differs: the
+non-degeneracy hypothesis of `paveba_oracles_sound_of_valid_regions` holds for such boxes. -/
+theorem box_nondegenerate (W : Mat) (l u : Vec) (hlen : l.length = u.length) (hle : vle l u = true)
+    (w : Vec) (hwW : w ∈ W) (d : Nat) (hd : d < l.length) (hwd : d < w.length)
+    (hw : w[d] ≠ 0) (hlt : l[d] < u[d]'(by omega)) :
+    ∃ z, inBox l u z = true ∧ ∃ z', inBox l u z' = true ∧ ∃ w ∈ W, dot w z ≠ dot w z' := by
+  have hle' := (vle_iff l u).mp hle
+  refine ⟨l, ?_, l.set d (u[d]'(by omega)), ?_, w, hwW, ?_⟩
+  · rw [inBox_iff]
+    exact ⟨rfl, hlen.symm, fun n h hl hu => ⟨le_refl _, hle' n hl hu⟩⟩
+  · rw [inBox_iff]
+    refine ⟨by simp, by simp [hlen], fun n h hl hu => ?_⟩
+    rw [List.getElem_set]
+    by_cases hdn : d = n
+    · subst hdn
+      simp only [if_true]
+      exact ⟨le_of_lt hlt, le_refl _⟩
+    · simp only [hdn, if_false]
+      exact ⟨le_refl _, hle' n hl hu⟩
+  · rw [dot_set w l d _ hd hwd]
+    intro h
+    have : w[d] * (u[d]'(by omega) - l[d]) = 0 := by linarith
+    rcases mul_eq_zero.mp this with h0 | h0
+    · exact hw h0
+    · linarith
+
+end VOPy.Accuracy
